@@ -11,8 +11,10 @@ def loops(k, header, kw):
     if not mt:
         return None
     i = mt.group(1)
+    A = "*genv, trait_ident.0@, *self_ty, op.0@"
     return (f"invariant {i} <= __dv.len(), __dv@.len() == genv.deps.vals().len(), forall|j: int| 0 <= j < __dv@.len() ==> *(#[trigger] __dv@[j]) == genv.deps.vals()[j],\n"
-            f"  impls@ =~= own_impls(*genv, trait_ident.0@, *self_ty, op.0@) + dep_impls(genv.deps.vals(), trait_ident.0@, *self_ty, op.0@, {i} as int),\n"
+            f"  impls@.len() == __n0 + dep_count(genv.deps.vals(), trait_ident.0@, *self_ty, op.0@, {i} as int),\n"
+            f"  forall|k: int| 0 <= k < impls@.len() ==> visible_impl({A}, #[trigger] impls@[k]),\n"
             f"  *diagnostics == *old(diagnostics), *still_pending == *old(still_pending), trait_ident.0@ == resolved_name(*genv, trait_name.0@),\n"
             f" decreases __dv.len() - {i},")
 
@@ -43,7 +45,7 @@ UNIT = Unit(
            cut_from=re.compile(r"let \(resolved, _env\) =\s*super::util::resolve_type_name\(genv, &trait_name\.0\);"), cut_before="@block-end", cut_tail="",
            sig="pub fn overload_concrete(&mut self, genv: &PackageTypeEnv, diagnostics: &mut Diagnostics, still_pending: &mut Vec<Constraint>, changed: &mut bool, "
                "op: TastIdent, trait_name: TastIdent, self_ty: &Ty, ty: &Ty, norm_arg_types: Vec<Ty>, norm_ret_ty: Box<Ty>)",
-           pre_rewrites=[(re.compile(r"for (\w+) in genv\.deps\.values\(\) \{"), r"let __dv = genv.deps.values_vec();\nfor \1 in __dv.iter() {", "*"),
+           pre_rewrites=[(re.compile(r"for (\w+) in genv\.deps\.values\(\) \{"), r"let ghost __n0 = impls@.len(); let __dv = genv.deps.values_vec();\nfor \1 in __dv.iter() {", "*"),
                          (re.compile(r"match (\w+)\.as_slice\(\) \{"), slice_arms, "*"),
                          (re.compile(r"\[(\w+)\](\s+if\b|\s*=>)"), r"SliceShape::One(\1)\2", "*"), (re.compile(r"\[\](\s+if\b|\s*=>)"), r"SliceShape::Zero\1", "*"),
                          (re.compile(r"\[(\w+), \.\.\](\s+if\b|\s*=>)"), r"SliceShape::One(\1) | SliceShape::Many(\1)\2", "*"),
@@ -53,6 +55,10 @@ UNIT = Unit(
            obligation="exactly one visible implementation => the call type is equated with an instance of it; none or several => an error, nothing equated",
            contract="requires ty == self_ty,\n"
                     "ensures overload_ok(*genv, trait_name, op, *self_ty, norm_arg_types@, *norm_ret_ty, old(diagnostics)@, final(diagnostics)@, old(still_pending)@, final(still_pending)@, *final(changed)),",
+           ghost=[(r"@after-loop:__fk\d+\s*<\s*__dv", "", "let ghost __imp1 = impls@;"),
+                  ("match slice_shape(&impls) {", "line-before",
+                   "proof { assert forall|k: int| 0 <= k < impls@.len() implies visible_impl(*genv, trait_ident.0@, *self_ty, op.0@, #[trigger] impls@[k]) by { "
+                   "if k < __imp1.len() { assert(impls@[k] == __imp1[k]); } } }")],
            loop_fn=loops),
     ],
 )
